@@ -116,12 +116,12 @@ Proof. split; vm_compute; reflexivity. Qed.
 
 (** (3) the former edge-filter defect: child C-O (ids 1,2) in parent C-O-C (ids 5,6,7), filter on *)
 Definition namesEC : list (N * N) := [(1, 9); (2, 3)]%N.
-Example ex_subgraph_bool : contained true (nm_sub namesEC) (em_sub (Some 4%N)) gCOC gCO /\
-                           ~ contained false (nm_sub namesEC) (em_sub (Some 4%N)) gCO gCOC.
+Example ex_subgraph_bool : contained true (nm_subc CEq namesEC) (em_subc CEq (Some 4%N)) gCOC gCO /\
+                           ~ contained false (nm_subc CEq namesEC) (em_subc CEq (Some 4%N)) gCO gCOC.
 Proof.
   split.
-  - apply (subgraph_bool has_mono has_mono_contract true true namesEC (Some 4%N) gCO gCOC wf_gCO wf_gCOC). vm_compute. reflexivity.
-  - intros C. apply (subgraph_bool has_mono has_mono_contract true false namesEC (Some 4%N) gCOC gCO wf_gCOC wf_gCO) in C.
+  - apply (subgraph_bool has_mono has_mono_contract true true CEq CEq namesEC (Some 4%N) gCO gCOC wf_gCO wf_gCOC). vm_compute. reflexivity.
+  - intros C. apply (subgraph_bool has_mono has_mono_contract true false CEq CEq namesEC (Some 4%N) gCOC gCO wf_gCOC wf_gCO) in C.
     vm_compute in C. discriminate.
 Qed.
 
